@@ -176,6 +176,11 @@ Example C02_set_the_example :
   (* set the <name> of <o> = v (SSetAcc, 62 n) *)
   compile_s (SSetAcc 0 (ECall 0 [EInt 2]) (EInt 1)) = [Byte.x41; Byte.x02; Byte.x43; Byte.x01; Byte.x57; Byte.x00; Byte.x41; Byte.x01; Byte.x62; Byte.x00] /\
   gen_lingo (reify_s en [] 0 (SSetAcc 0 (ECall 0 [EInt 2]) (EInt 1))) 1 = ("    set the x of x(2) = 1" ++ "
+")%string /\
+  (* set the <property> of menuItem i of menu m = v (SSetMenu, 5D 03) *)
+  gen_lingo (reify_s en [] 0 (SSetMenu 3 (EInt 2) (EInt 1) (EInt 0))) 1 = ("    set the enabled of menuItem 2 of menu 1 = 0" ++ "
+")%string /\
+  gen_js (reify_s en [] 0 (SSetMenu 3 (EInt 2) (EInt 1) (EInt 0))) 1 false = ("    _menuBar.menu[1].item[2].enabled = 0;" ++ "
 ")%string.
 Proof. split; [cbn; repeat split; try lia; right; reflexivity|]. split; [cbn; repeat split; reflexivity|]. repeat split; vm_compute; reflexivity. Qed.
 
